@@ -9,6 +9,9 @@ package main
 // case = (graph local remote op)
 //   graph  = ((id (parent ...) table time) ...)    parents before children; table = fixture table number
 //   local, remote = ((commit ...) (table ...) ((name id) ...))   stored commits, stored tables, refs
+//   an op may end with a fault (mode phase j): mode 1 connection abort | 2 HTTP/2 stream reset (TLS test server);
+//   phase 1 the answer to GET /refs/ | 2 the first JSON answer of the POST exchange | 3 the answer of the packfile
+//   exchange that carries the j-th commit.  The response is lost entirely after the server processed the request.
 //   op     = (0 gforce depth k p tb (spec ...))    fetch; k = haves per round trip (0 = default 256, through
 //                                                  fetch.Fetch only), p = server max packfile size in bytes
 //                                                  (0 = default), tb = tables offered per round (0 = none)
@@ -17,12 +20,14 @@ package main
 // obs  = (outcome local' remote')  outcome 0 ok | 1 error; states as in the case with sorted lists
 //
 // Oracle classes: closure, depth-rule, depth-rule-want-order, depth-rule-followed-tag, table-unusable, objects-differ,
-// not-idempotent, rounds, refs-before-objects.
+// not-idempotent, rounds, refs-before-objects, success-with-missing-objects (a faulted run that reports success
+// although a moved ref lacks history or tables), fault-broke-refs (any ref that does not resolve with full history).
 
 import (
 	"bytes"
 	"fmt"
 	"io"
+	"net/http"
 	"net/http/httptest"
 	"os"
 	"path/filepath"
@@ -67,6 +72,9 @@ type c09Case struct {
 	TB     int
 	Specs  []c10Spec
 	Items  []c10PItem
+	FMode  int // 0 none, 1 connection abort, 2 HTTP/2 stream reset
+	FPhase int // 1 GET /refs/, 2 first JSON answer, 3 packfile exchange carrying the FJ-th commit
+	FJ     int
 }
 
 func c09SideT(s c09Side) *xt.T {
@@ -95,6 +103,9 @@ func (c *c09Case) Tree() *xt.T {
 			items.Add(xt.N(xt.Bool(it.Force), xt.Opt(src), xt.Str(it.Dst)))
 		}
 		op = xt.N(xt.LI(1), xt.Bool(c.GForce), xt.LI(c.P), items)
+	}
+	if c.FMode != 0 {
+		op.Add(xt.N(xt.LI(c.FMode), xt.LI(c.FPhase), xt.LI(c.FJ)))
 	}
 	return xt.N(g, c09SideT(c.L), c09SideT(c.R), op)
 }
@@ -140,6 +151,14 @@ func c09Parse(t *xt.T) *c09Case {
 			}
 			c.Items = append(c.Items, it)
 		}
+	}
+	fi := 7
+	if c.Kind == 1 {
+		fi = 4
+	}
+	if len(op.Kids) > fi && len(op.Kids[fi].Kids) == 3 {
+		f := op.Kids[fi].Kids
+		c.FMode, c.FPhase, c.FJ = int(f[0].N), int(f[1].N), int(f[2].N)
 	}
 	return c
 }
@@ -214,6 +233,106 @@ func genC09(ctx *Ctx) []Case {
 		c = &c09Case{G: g3, Kind: 1, Items: []c10PItem{{false, "heads/main", "heads/main"}, {false, "tags/v1", "tags/v1"}}}
 		c.L = c09FullSide(g3, [][2]interface{}{{"heads/main", 4}, {"tags/v1", 2}})
 		add("push-empty-remote", c)
+	}
+	// ---- transport faults: one response of the exchange lost, at every position, on a chain (so that the
+	// stream and hence "the packfile carrying the j-th commit" is the same for the model and the implementation)
+	{
+		gf := &c09Graph{Par: [][]int{{}, {0}, {1}, {2}}, Tab: []int{1, 0, 3, 4}, Ts: []int{0, 1, 2, 3}}
+		full := c09FullSide(gf, [][2]interface{}{{"heads/main", 3}})
+		for _, m := range []int{-1, 1} { // the receiver has nothing / has the chain up to commit m
+			recv := c09Side{}
+			if m >= 0 {
+				recv = c09FullSide(gf, [][2]interface{}{{"heads/main", m}})
+			}
+			for _, mode := range []int{1, 2} {
+				for _, p := range []int{1, 0} {
+					type ph struct{ phase, j int }
+					phases := []ph{{1, 0}, {2, 1}}
+					for j := 1; j <= 3-m+1; j++ {
+						phases = append(phases, ph{3, j})
+					}
+					for _, f := range phases {
+						for _, tb := range []int{0, 1} {
+							c := &c09Case{G: gf, Kind: 0, P: p, TB: tb, Specs: []c10Spec{headSpec}, FMode: mode, FPhase: f.phase, FJ: f.j}
+							c.R = full
+							c.L = recv
+							if m >= 0 {
+								c.L.Refs = [][2]interface{}{{"remotes/origin/main", m}}
+							}
+							add("fault-fetch", c)
+							ctx.Count(fmt.Sprintf("fault_mode%d_phase%d", mode, f.phase))
+						}
+						c := &c09Case{G: gf, Kind: 1, P: p, Items: []c10PItem{{false, "heads/main", "heads/main"}}, FMode: mode, FPhase: f.phase, FJ: f.j}
+						c.L = full
+						c.R = recv
+						add("fault-push", c)
+					}
+				}
+			}
+		}
+	}
+	// ---- batch boundaries: the client offers candidate tables in batches of 256 (push), the reference server
+	// offers them in batches of TB = 256 (fetch), popHaves sends 256 haves per round trip
+	{
+		sizes := []int{257}
+		if ctx.Thorough() {
+			sizes = []int{255, 256, 257, 513}
+		}
+		for _, n := range sizes {
+			// a chain of n commits, each with its own 1-row table; the receiver has the first 3 commits and,
+			// scattered, every 7th table of the rest (so acknowledgements fall into every batch)
+			gb := &c09Graph{}
+			nb := n + 3 // n commits (and candidate tables) to transfer on top of the 3 the receiver has
+			for i := 0; i < nb; i++ {
+				ps := []int{}
+				if i > 0 {
+					ps = []int{i - 1}
+				}
+				gb.Par = append(gb.Par, ps)
+				gb.Tab = append(gb.Tab, 5+i)
+				gb.Ts = append(gb.Ts, i)
+			}
+			full := c09FullSide(gb, [][2]interface{}{{"heads/main", nb - 1}})
+			part := c09FullSide(gb, [][2]interface{}{{"heads/main", 2}})
+			for i := 3; i < nb; i++ {
+				if i%7 == 3 {
+					part.Tables = append(part.Tables, 5+i)
+				}
+			}
+			c := &c09Case{G: gb, Kind: 1, Items: []c10PItem{{false, "heads/main", "heads/main"}}}
+			c.L, c.R = full, part
+			add("batch-tables-push", c)
+			c = &c09Case{G: gb, Kind: 0, TB: 256, Specs: []c10Spec{headSpec}}
+			c.R, c.L = full, part
+			c.L.Refs = [][2]interface{}{{"remotes/origin/main", 2}}
+			add("batch-tables-fetch", c)
+			ctx.Count(fmt.Sprintf("batch_tables_%d", n))
+			// haves: a shared chain A (newest), then n local-only commits L the server does not know; the remote's
+			// tip merges A with a new root B, so the want keeps reaching a root and the server keeps asking
+			gh := &c09Graph{}
+			addC := func(ps []int, tab, ts int) int {
+				gh.Par = append(gh.Par, ps)
+				gh.Tab = append(gh.Tab, tab)
+				gh.Ts = append(gh.Ts, ts)
+				return len(gh.Par) - 1
+			}
+			a0 := addC(nil, 1, 100000)
+			a1 := addC([]int{a0}, 2, 100001)
+			l := -1
+			for i := 0; i < n; i++ {
+				ps := []int{}
+				if l >= 0 {
+					ps = []int{l}
+				}
+				l = addC(ps, 5+i%3, 50000+i)
+			}
+			b0 := addC(nil, 3, 200000)
+			w := addC([]int{a1, b0}, 4, 200001)
+			c = &c09Case{G: gh, Kind: 0, Specs: []c10Spec{headSpec}}
+			c.L = c09FullSide(gh, [][2]interface{}{{"heads/a", a1}, {"heads/l", l}})
+			c.R = c09FullSide(gh, [][2]interface{}{{"heads/w", w}})
+			add("batch-haves", c)
+		}
 	}
 	// ---- random: a common history, then both sides diverge
 	n := 220
@@ -400,8 +519,17 @@ func c09Snapshot(g *c09Graph, db objects.Store, rs ref.Store) *c09State {
 		}
 		st.Commits[id] = true
 	}
+	seenT := map[int]bool{}
+	for _, t := range g.Tab {
+		if !seenT[t] {
+			seenT[t] = true
+			if objects.TableExist(db, c09TableSum(t)) {
+				st.Tables[t] = true
+			}
+		}
+	}
 	for t := 0; t < c09NTables; t++ {
-		if objects.TableExist(db, c09TableSum(t)) {
+		if !seenT[t] && objects.TableExist(db, c09TableSum(t)) {
 			st.Tables[t] = true
 		}
 	}
@@ -492,8 +620,24 @@ func runC09(ctx *Ctx, t *xt.T) (*xt.T, Verdict) {
 	if c.Kind == 0 {
 		srv.MaxPackfileSize = uint64(c.P)
 	}
-	ts := httptest.NewServer(srv)
+	var ts *httptest.Server
+	var transport http.RoundTripper // nil = default
+	if c.FMode == 2 {
+		// HTTP/2 over TLS: a response lost by the fault layer reaches the client as RST_STREAM INTERNAL_ERROR
+		ts = httptest.NewUnstartedServer(srv)
+		ts.EnableHTTP2 = true
+		ts.StartTLS()
+		transport = ts.Client().Transport
+	} else {
+		ts = httptest.NewServer(srv)
+	}
 	defer ts.Close()
+	if c.FMode != 0 {
+		srv.FaultPhase, srv.FaultJ = c.FPhase, c.FJ
+		if c.FPhase == 2 {
+			srv.FaultJ = 1
+		}
+	}
 
 	var ldb objects.Store
 	var lrs ref.Store
@@ -584,6 +728,12 @@ func runC09(ctx *Ctx, t *xt.T) (*xt.T, Verdict) {
 				args = append(args, "--force")
 			}
 			args = append(args, "--no-progress")
+			if transport != nil {
+				// `wrgl push` builds its own client on http.DefaultTransport: trust the test server's certificate
+				old := http.DefaultTransport
+				http.DefaultTransport = transport
+				defer func() { http.DefaultTransport = old }()
+			}
 			out, oc := c10RunCmd(wrglDir, args...)
 			return c09Run{oc, out, srv.Stats}
 		}
@@ -593,6 +743,12 @@ func runC09(ctx *Ctx, t *xt.T) (*xt.T, Verdict) {
 		}
 		cm := utils.NewClientMap(cs, logr.Discard())
 		cmd := &cobra.Command{}
+		if transport != nil {
+			// the ClientMap memoises clients by URL: fetch.Fetch will use this one
+			if _, err := cm.GetClient(cmd, ts.URL, apiclient.WithTransport(transport)); err != nil {
+				panic(err)
+			}
+		}
 		buf := &bytes.Buffer{}
 		cmd.SetOut(buf)
 		cmd.SetErr(buf)
@@ -603,7 +759,11 @@ func runC09(ctx *Ctx, t *xt.T) (*xt.T, Verdict) {
 		var stats c09Stats
 		if c.K > 0 {
 			// the session with an explicit number of haves per round trip (fetch.Fetch always uses the default)
-			client, err := apiclient.NewClient(ts.URL, logr.Discard())
+			var copts []apiclient.ClientOption
+			if transport != nil {
+				copts = append(copts, apiclient.WithTransport(transport))
+			}
+			client, err := apiclient.NewClient(ts.URL, logr.Discard(), copts...)
 			if err != nil {
 				panic(err)
 			}
@@ -651,6 +811,7 @@ func runC09(ctx *Ctx, t *xt.T) (*xt.T, Verdict) {
 		objW0, refW0 = lrec.NWrites(), lrefrec.NWrites()
 	}
 	r1 := runOnce()
+	srv.FaultPhase = 0 // one exchange, one fault: the repeated run below is undisturbed
 	withLocal(func(db objects.Store, rs ref.Store) { lAfter = c09Snapshot(g, db, rs) })
 	rAfter := c09Snapshot(g, rdb, rrs)
 	obs := xt.N(xt.LI(r1.outcome), lAfter.Tree(), rAfter.Tree())
@@ -774,6 +935,21 @@ func runC09(ctx *Ctx, t *xt.T) (*xt.T, Verdict) {
 				}
 			}
 		}
+		// 1b. after a faulted exchange, whatever the command reported: every ref of the receiving side still
+		// resolves to a stored commit with its whole history
+		if c.FMode != 0 {
+			for n, tip := range recvAfter.Refs {
+				if tip == 999999 {
+					fail("fault-broke-refs", "ref %s points at an unknown commit after the faulted exchange", n)
+					continue
+				}
+				for x := range g.Anc(tip) {
+					if !objects.CommitExist(recvDB, g.Sums[x]) {
+						fail("fault-broke-refs", "ref %s -> c%d: ancestor c%d is not stored after the faulted exchange", n, tip, x)
+					}
+				}
+			}
+		}
 		// 2. objects identical on both sides: everything new on the receiver exists on the sender with the same bytes
 		recvDump := c09Dump(recvDB)
 		var before map[string][]byte
@@ -820,6 +996,30 @@ func runC09(ctx *Ctx, t *xt.T) (*xt.T, Verdict) {
 	r2 := runOnce()
 	withLocal(func(db objects.Store, rs ref.Store) { lAgain = c09Snapshot(g, db, rs) })
 	rAgain := c09Snapshot(g, rdb, rrs)
+	if c.FMode != 0 && r1.outcome != 0 {
+		// the undisturbed repetition of a failed exchange: nothing to compare it with here (the model case without
+		// the fault is generated alongside); it must leave refs that resolve
+		withLocal(func(db objects.Store, rs ref.Store) {
+			rdb2 := recvDB
+			if c.Kind == 0 {
+				rdb2 = db
+			}
+			st := lAgain
+			if c.Kind == 1 {
+				st = rAgain
+			}
+			for n, tip := range st.Refs {
+				if tip == 999999 {
+					continue
+				}
+				for x := range g.Anc(tip) {
+					if !objects.CommitExist(rdb2, g.Sums[x]) {
+						fail("fault-broke-refs", "after the repeated exchange ref %s -> c%d lacks ancestor c%d", n, tip, x)
+					}
+				}
+			}
+		})
+	}
 	if r1.outcome == 0 {
 		if r2.outcome != 0 {
 			fail("not-idempotent", "repeated operation failed: %s", r2.out)
@@ -838,7 +1038,7 @@ func runC09(ctx *Ctx, t *xt.T) (*xt.T, Verdict) {
 		}
 	}
 	// 4. round trips: negotiation is bounded by the local history
-	if c.Kind == 0 {
+	if c.Kind == 0 && c.FMode == 0 {
 		k := c.K
 		if k == 0 {
 			k = 256
@@ -854,6 +1054,12 @@ func runC09(ctx *Ctx, t *xt.T) (*xt.T, Verdict) {
 		}
 	}
 	if verdict != nil {
+		if c.FMode != 0 && r1.outcome == 0 {
+			switch verdict.Class {
+			case "closure", "depth-rule", "table-unusable", "fault-broke-refs":
+				verdict.Class = "success-with-missing-objects"
+			}
+		}
 		return obs, *verdict
 	}
 	return obs, OK()
